@@ -1,4 +1,78 @@
-(* C38/Properties.v — property C38 (statements only). Under construction. *)
-From Common Require Import Bytes.
-From Trie Require Import Nibbles Node Encode Model Spec.
-From C38 Require Import Model.
+(* C38/Properties.v — property C38: paginated key listing enumerates each matching key exactly once.
+   Only statements, each closed by `exact <lemma>`, with Print Assumptions beneath.
+
+   paging fuel t p qty [] : the client loop of the property on the model of state_getKeysPaged
+       (dot/rpc/modules/state.go over InmemoryStorageState/InMemoryTrie): first page with AfterKey "",
+       then AfterKey = the last key returned ("0x%x" string, compared with strings.Compare), until a
+       page is shorter than qty.
+   Rep t m : the trie t (canonical) holds exactly the ordered byte-string map m.
+   spec_paging m p qty : the keys of m that start (byte-wise) with p, ascending, cut into pages of qty.
+
+   FULL STATEMENT: for every state, prefix and page size the pages enumerate exactly the keys with the
+   prefix, ascending, each once; getPairs returns exactly those keys with their values.
+   It is refuted for prefixes whose last byte has a zero low nibble when a stored key shares only the
+   high nibble (known finding prefix-trim, inherited from InMemoryTrie.GetKeysWithPrefix and pinned by
+   TestTrie_ClearPrefixVsDelete): C38_prefix_refuted.  Outside guard_trim the statement is proved. *)
+From Common Require Import Bytes Outcome.
+From Trie Require Import Nibbles Node Encode Model Spec MapProofs.
+From C38 Require Import Model Proofs.
+
+(* every page size > 0, every state, every prefix outside the guard: the loop ends and returns the
+   keys with the prefix cut into pages ... *)
+Theorem C38_paging_partial : forall t m p qty fuel,
+  Rep t m -> guard_trim m p = false -> (0 < qty)%N ->
+  (length (spec_keys m p) < fuel * N.to_nat qty)%nat ->
+  paging fuel t p qty [] = Ok (spec_paging m p qty, true).
+Proof. intros t m p qty fuel R G Q F. exact (paging_from_start t m p qty R G Q fuel F). Qed.
+Print Assumptions C38_paging_partial.
+
+(* ... and the pages concatenated are exactly those keys, ascending, each once *)
+Theorem C38_paging_enumerates : forall m p qty, (0 < qty)%N ->
+  concat (spec_paging m p qty) = bm_keys_with_prefix m p.
+Proof. exact paging_enumerates. Qed.
+Print Assumptions C38_paging_enumerates.
+
+(* the key/value listing *)
+Theorem C38_pairs_partial : forall t m,
+  Rep t m ->
+  pairs t None = Ok (spec_pairs m None) /\
+  forall p, guard_trim m p = false -> pairs t (Some p) = Ok (spec_pairs m (Some p)).
+Proof. intros t m R. split; [exact (pairs_all t m R)|intros p G; exact (pairs_prefix t m p R G)]. Qed.
+Print Assumptions C38_pairs_partial.
+
+(* states reachable through Put satisfy Rep *)
+Theorem C38_states : forall es, Rep (trie_of_entries es) (bm_of_list es).
+Proof.
+  intros es. unfold trie_of_entries, bm_of_list.
+  assert (G : forall t m, Rep t m ->
+            Rep (fold_left (fun t e => trie_put t (fst e) (snd e)) es t)
+                (fold_left (fun m e => bm_put m (fst e) (snd e)) es m)).
+  { induction es as [|e es IH]; intros t m R; simpl; auto. apply IH. now apply Rep_put. }
+  apply G, Rep_empty.
+Qed.
+Print Assumptions C38_states.
+
+(* "0x%x" rendering preserves the order, so comparing the rendered keys is comparing the keys *)
+Theorem C38_hex_order : forall a b, bytes_compare (hex0x a) (hex0x b) = bytes_compare a b.
+Proof. exact hex0x_compare. Qed.
+Print Assumptions C38_hex_order.
+
+(* inside the guard the statement fails: 0x1001 and 0x1f02 stored, prefix 0x10 *)
+Definition w_state : list (list byte * value) :=
+  [([n2b 16; n2b 1], [n2b 170]); ([n2b 31; n2b 2], [n2b 187])].
+Theorem C38_prefix_refuted :
+  guard_trim (bm_of_list w_state) [n2b 16] = true /\
+  paging 5 (trie_of_entries w_state) [n2b 16] 1 [] <> Ok (spec_paging (bm_of_list w_state) [n2b 16] 1, true) /\
+  pairs (trie_of_entries w_state) (Some [n2b 16]) <> Ok (spec_pairs (bm_of_list w_state) (Some [n2b 16])).
+Proof. vm_compute. repeat split; discriminate. Qed.
+Print Assumptions C38_prefix_refuted.
+
+(* non-vacuity: three pages of size 2 over five matching keys, the empty key included *)
+Example C38_nonvacuous :
+  let es := [([], [n2b 1]); ([n2b 0], [n2b 2]); ([n2b 0; n2b 0], [n2b 3]); ([n2b 0; n2b 1], [n2b 4]);
+             ([n2b 1], [n2b 5]); ([n2b 255], [])] in
+  guard_trim (bm_of_list es) [] = false /\
+  paging 9 (trie_of_entries es) [] 2 [] =
+    Ok ([[[]; [n2b 0]]; [[n2b 0; n2b 0]; [n2b 0; n2b 1]]; [[n2b 1]; [n2b 255]]; []], true) /\
+  paging 9 (trie_of_entries es) [n2b 0] 2 [] = Ok ([[[n2b 0]; [n2b 0; n2b 0]]; [[n2b 0; n2b 1]]], true).
+Proof. vm_compute. repeat split; reflexivity. Qed.
